@@ -14,21 +14,27 @@ MANIFEST = {
             "output sample (a,b) IS the centred Riemann sum of the Fresnel-Kirchhoff (Fraunhofer) integral with kernel exp(+i pi |x2-x1|^2/(lambda z))/(i lambda z) "
             "at (x,y)=((b-N/2)d2,(a-N/2)d2), which fixes kernel sign, scale and orientation; twoStepFresnel is two chained one-step sums and "
             "(after the orientation repair) lands on the grid +(a-N/2)d2. Model tied to the code by the C10 correspondence; the oracle evaluates "
-            "group laws, the direct O(N^4) Fresnel sums, cross-propagator agreement on matching grids with an asymmetric off-centre beam, the "
-            "analytic Gaussian beam (width, curvature, Gouy phase) and the Airy pattern on the real code.",
+            "group laws and whole programs of steps, the direct Fresnel and angular-spectrum sums (even and odd N), cross-propagator agreement on matching "
+            "grids with an asymmetric off-centre beam, the analytic Gaussian beam (width, curvature, Gouy phase) and the Airy pattern of an off-centre "
+            "elliptical aperture on the real code. Further theorems: a program of steps equals one step over the summed distance (runAS_eq_sum, every N); "
+            "the transfer phase is exactly -pi lambda z |f|^2/m on f=(j-N//2)/(N d1) (as_transfer_phase) and angularSpectrum at m=1 IS the direct "
+            "angular-spectrum sum (as_is_spectrum_sum).",
     "note": "Trusted: Lean kernel + propext/Classical.choice/Quot.sound; numpy.fft = naive DFT (checked to 1e-9); binary64 rounding not modelled. "
             "Agreement of the discrete sums with the continuous Fresnel integral (Gaussian beam, Airy, angular-spectrum vs Fresnel sampling) is "
             "an approximation statement and stays numeric (bounds stated in the evidence).",
     "technique": "Lean 4 proof (roots of unity, phase algebra over Finset sums) + differential correspondence with the real code + oracle search",
 }
 REQUIRED = ["as_zero", "as_add", "as_neg", "as_mag_inverse", "oneStep_is_fresnel_sum", "lens_is_fraunhofer_sum",
-            "twoStep_is_two_steps", "twoStep_pinned_is_two_sums", "twoStep_orientation", "twoStep_pinned_point_reflected"]
+            "twoStep_is_two_steps", "twoStep_pinned_is_two_sums", "twoStep_orientation", "twoStep_pinned_point_reflected",
+            "runAS_eq_sum", "runAS_eq_of_sum_eq", "as_transfer_phase", "as_transfer_phase_even", "as_is_spectrum_sum",
+            "oneStep_is_fresnel_sum_anyN", "lens_is_fraunhofer_sum_anyN", "twoStep_pinned_is_two_sums_anyN", "twoStep_orientation_anyN"]
 TOL = 1e-9
 
 
 # --------------------------------------------------------------------------- reference sums (O(N^3), separable kernel)
 def grid(n, d):
-    return (numpy.arange(n) - n / 2.0) * d
+    """coordinates of the samples: sample n//2 at the origin (where ft2/ift2 centre, for even and odd n)"""
+    return (numpy.arange(n) - n // 2) * d
 
 
 def fresnel_sum(U, wvl, z, d1, X):
@@ -46,18 +52,53 @@ def fraunhofer_sum(U, wvl, f, d1, X):
     return (q[:, None] * q[None, :]) * (Km @ U @ Km.T) * (d1 * d1 / (1j * wvl * f))
 
 
+def spectrum_sum(U, wvl, d1, d2, z):
+    """the direct angular-spectrum sum (Lean: as_is_spectrum_sum + as_transfer_phase): with m = d2/d1, f_j = (j - N//2)/(N d1),
+    Q3 · Σ_f e^{+2πi f·x2'} e^{-iπ λ z |f|²/m} [ Σ_x1 (Q1 U/m)(x1) e^{-2πi f·x1} d1² ] df²   (x2' = x2/m: the scaled output grid),
+    Q1 = e^{i k/2 (1-m)/z (|x1|²+1e-10)}, Q3 = e^{i k/2 (m-1)/(m z) |x2|²}"""
+    n = U.shape[0]
+    m = d2 / d1
+    k = 2 * numpy.pi / wvl
+    x1 = grid(n, d1)
+    x2 = grid(n, d2)
+    f = grid(n, 1.0 / (n * d1))
+    r1 = x1[None, :] ** 2 + x1[:, None] ** 2 + 1e-10
+    r2 = x2[None, :] ** 2 + x2[:, None] ** 2
+    F = numpy.exp(-2j * numpy.pi * f[:, None] * x1[None, :])          # F[p, a'] ; x1 f = (a'-c)(p-c)/N
+    H = numpy.exp(-1j * numpy.pi * wvl * z / m * (f[None, :] ** 2 + f[:, None] ** 2))
+    spec = F @ (numpy.exp(1j * k / 2 * (1 - m) / z * r1) * U / m) @ F.T * d1 * d1
+    Fi = numpy.conj(F).T                                              # Fi[a, p]
+    return numpy.exp(1j * k / 2 * (m - 1) / (m * z) * r2) * (Fi @ (H * spec) @ Fi.T) / (n * d1) ** 2
+
+
 def reflect(U):
-    return numpy.roll(U[::-1, ::-1], 1, axis=(0, 1))
+    """point reflection about the centre sample n//2"""
+    return numpy.roll(U[::-1, ::-1], 1 - U.shape[0] % 2, axis=(0, 1))
 
 
 def two_stage(U, wvl, d1, d2, z, n):
-    """the two-stage Fresnel sum of twoStepFresnel on the honest (signed) intermediate grid, at output coordinates +(a-N/2) d2"""
-    m = d2 / d1
-    Dz1 = z / (1 - m) if m != 1 else z / (1 + m)
+    """the two-stage Fresnel sum of twoStepFresnel on the honest (signed) intermediate grid, at output coordinates +(a-N//2) d2"""
+    Dz1 = z / (1 - d2 / d1) if d2 != d1 else z / 2
     Dz2 = z - Dz1
     s1 = wvl * Dz1 / (n * d1)
     V = fresnel_sum(U, wvl, Dz1, d1, grid(n, s1))
     return fresnel_sum(V, wvl, Dz2, s1, grid(n, d2))
+
+
+CROSS_TWO_TOL = 1e-9     # angularSpectrum vs twoStepFresnel on the same grid, off-centre asymmetric Gaussian, N = 64..129, m != 1, after removing the
+#                          constant phase that the 1e-10 in angularSpectrum's r1sq contributes (k/2 (1-m)/z 1e-10, up to 1.3e-5 rad here — the whole
+#                          of the 1.2e-5 "discretisation error" seen before): the two discrete operators coincide (observed <= 2.4e-15 over 12 seeds)
+CROSS_ONE_TOL = 2e-5     # angularSpectrum vs oneStepFresnel on the one-step grid: a genuine sampling difference (observed <= 2.0e-7 over 12 seeds)
+GAUSS_TOL = 1e-9         # angularSpectrum at m=1 vs the analytic beam, N = 65, 128, 129 (observed <= 3.1e-14 over 12 seeds)
+GAUSS_MAG_TOL = 1e-7     # magnified beam (m = 3/4, 3/2), angularSpectrum and twoStepFresnel, N >= 96 (observed <= 3e-10; at N = 65 the output grid of
+#                          m = 3/4 cuts the beam at 4.4 w(z): 8e-6, not used)
+AIRY_TOL = 5e-3          # focal-plane amplitude of an off-centre elliptical aperture against the periodised, pixel-integrated Airy amplitude
+#                          (observed <= 2.6e-4: truncation of the image sum at |p|,|q| <= 2 and the 16x16 sub-pixel coverage)
+
+
+def sum_tol(n):
+    """direct-sum identities: rounding of O(N²) terms with phases up to ~1e3-1e5 rad (observed <= 1e-12 for N<32, <= 1e-10 for N<=65)"""
+    return 1e-9 if n < 32 else 1e-8
 
 
 # --------------------------------------------------------------------------- oracle
@@ -65,9 +106,14 @@ def oracle(chk, quick):
     from aotools import opticalpropagation as op
     rng = chk.rng
     nprng = numpy.random.default_rng(rng.getrandbits(32))
+    it = rng.randint(0, 9)
 
     def relerr(a, b):
         return float(numpy.abs(a - b).max()) / (float(numpy.abs(b).max()) + 1e-300)
+
+    def quiet(f, *a):
+        with numpy.errstate(all="ignore"):
+            return f(*a)
 
     # ---- group laws of angularSpectrum (exact discrete identities)
     # the group laws are proved for every N >= 1 and the property does not restrict them to even grids: odd sizes included
@@ -75,77 +121,132 @@ def oracle(chk, quick):
     reps = 3 if quick else 10
     for n in sizes:
         for rep in range(reps):
+            it += 1
             wvl, d1, z = c10.geometry(rng, n)
             kind = rng.choice(["gauss", "dyadic", "delta", "blob"])
-            U = c10.rand_field(nprng, n, kind)
-            sc = float(numpy.abs(U).max())
-            rp = dict(N=n, wvl=wvl, d1=d1, z=z, data=kind, seed=chk.seed, U=c10._small(U))
+            cls = c10.FIELD_CLASSES[it % len(c10.FIELD_CLASSES)]
+            Uin, U, c64 = c10.present_field(c10.rand_field(nprng, n, kind), cls)
+            m = rng.choice([0.5, 0.75, 1.5, 2.0, rng.uniform(0.4, 2.5)])
+            sc = c10.Scalars(rng, it, wvl, d1, m, z)
+            (o_w, o_1, o_2, o_z), (wvl, d1, d2, z) = sc.obj, sc.val
+            tol = c10.LOWP_TOL if sc.lowp else c10.C64_TOL if c64 else TOL
+            scl = float(numpy.abs(U).max())
+            rp = dict(N=n, wvl=wvl, d1=d1, z=z, data=kind, field=cls, scalar_kinds=sc.label(), seed=chk.seed, U=c10._small(U))
             chk.oracle_cases += 1
             chk.count("group:N=%d" % n)
-            chk.case(("group", n, wvl, d1, z, kind), sample={"law": "as_add/as_neg/as_mag_inverse", "N": n, "wvl": wvl, "d1": d1, "z": z} if rep == 0 and n == 8 else None)
-            out0 = op.angularSpectrum(U.copy(), wvl, d1, d1 * rng.choice(c10.MAGS), 0.0)
-            if out0.shape != U.shape or not numpy.array_equal(out0, U):
-                chk.fail("group:as_zero", "angularSpectrum(U, z=0) ≠ U (N=%d)" % n, rp)
+            chk.count("group:field=%s" % cls)
+            for kk in sc.kinds:
+                chk.count("group:scalar=%s" % kk)
+            chk.case(("group", n, wvl, d1, z, kind, cls, sc.label()),
+                     sample={"law": "as_add/as_neg/as_mag_inverse/program", "N": n, "wvl": wvl, "d1": d1, "z": z} if rep == 0 and n == 8 else None)
+            for z0 in (0.0, 0, numpy.float64(0.0), numpy.array(0.0), -0.0):
+                out0 = numpy.asarray(op.angularSpectrum(Uin, o_w, o_1, o_2, z0))
+                if out0.shape != U.shape or not numpy.array_equal(out0, U):
+                    chk.fail("group:as_zero", "angularSpectrum(U, z=%r) ≠ U (N=%d)" % (z0, n), rp)
             # any split, including opposite signs and a zero part
             t = rng.choice([0.0, 1.0, rng.uniform(-2, 3), rng.uniform(0, 1)])
             z1, z2 = t * z, z - t * z
-            whole = op.angularSpectrum(U.copy(), wvl, d1, d1, z)
-            parts = op.angularSpectrum(op.angularSpectrum(U.copy(), wvl, d1, d1, z2), wvl, d1, d1, z1)
-            if not numpy.abs(parts - whole).max() <= TOL * sc:
+            whole = quiet(op.angularSpectrum, Uin, o_w, o_1, o_1, o_z)
+            parts = quiet(op.angularSpectrum, quiet(op.angularSpectrum, Uin, o_w, o_1, o_1, z2), o_w, o_1, o_1, z1)
+            e = c10.obs(chk, "as_add[tol %g]" % tol, float(numpy.abs(parts - whole).max()) / scl)
+            if not e <= tol:
                 chk.fail("group:as_add", "AS(z1)∘AS(z2) ≠ AS(z1+z2): err %.3g (N=%d wvl=%g d1=%g z1=%g z2=%g)"
-                         % (float(numpy.abs(parts - whole).max()), n, wvl, d1, z1, z2), dict(rp, z1=z1, z2=z2))
-            back = op.angularSpectrum(whole, wvl, d1, d1, -z)
-            if not numpy.abs(back - U).max() <= TOL * sc:
-                chk.fail("group:as_neg", "AS(-z)∘AS(z) ≠ id: err %.3g (N=%d wvl=%g d1=%g z=%g)" % (float(numpy.abs(back - U).max()), n, wvl, d1, z), rp)
-            m = rng.choice([0.5, 0.75, 1.5, 2.0, rng.uniform(0.4, 2.5)])
-            d2 = m * d1
-            rt = op.angularSpectrum(op.angularSpectrum(U.copy(), wvl, d1, d2, z), wvl, d2, d1, -z)
+                         % (e * scl, n, wvl, d1, z1, z2), dict(rp, z1=z1, z2=z2))
+            # a whole program of steps with the same total (Lean: runAS_eq_sum)
+            ks = rng.randint(2, 5)
+            steps = [rng.choice([0.0, rng.uniform(-1.5, 1.5) * z, rng.uniform(0, 1) * z]) for _ in range(ks - 1)]
+            steps.append(z - sum(steps))
+            prog = Uin
+            for st in steps:
+                prog = quiet(op.angularSpectrum, prog, o_w, o_1, o_1, st)
+            ptol = tol * ks * max(1.0, sum(abs(st) for st in steps) / abs(z))      # rounding of the phases grows with the path length
+            e = c10.obs(chk, "program[tol %g·k·path/|z|]" % tol, float(numpy.abs(prog - whole).max()) / scl / (ptol / tol))
+            if not e <= tol:
+                chk.fail("group:as_program", "a program of %d angularSpectrum steps %s with total %g ≠ one step over the total: err %.3g (N=%d wvl=%g d1=%g)"
+                         % (ks, steps, z, e * scl * ptol / tol, n, wvl, d1), dict(rp, steps=steps))
+            back = quiet(op.angularSpectrum, whole, o_w, o_1, o_1, -o_z)
+            e = c10.obs(chk, "as_neg[tol %g]" % tol, float(numpy.abs(back - U).max()) / scl)
+            if not e <= tol:
+                chk.fail("group:as_neg", "AS(-z)∘AS(z) ≠ id: err %.3g (N=%d wvl=%g d1=%g z=%g)" % (e * scl, n, wvl, d1, z), rp)
+            rt = quiet(op.angularSpectrum, quiet(op.angularSpectrum, Uin, o_w, o_1, o_2, o_z), o_w, o_2, o_1, -o_z)
             c = (2 * math.pi / wvl) / 2 * 1e-10 * (d1 * d1 - d2 * d2) / (d1 * d2 * z)
-            if not numpy.abs(rt - numpy.exp(1j * c) * U).max() <= TOL * sc:
+            e = c10.obs(chk, "as_mag_inverse[tol %g]" % tol, float(numpy.abs(rt - numpy.exp(1j * c) * U).max()) / scl)
+            if not e <= tol:
                 chk.fail("group:as_mag_inverse", "AS(1/m,-z)∘AS(m,z) ≠ e^{ic}·id with c=%.6g: err %.3g, against plain id %.3g (N=%d wvl=%g d1=%g d2=%g z=%g)"
-                         % (c, float(numpy.abs(rt - numpy.exp(1j * c) * U).max()), float(numpy.abs(rt - U).max()), n, wvl, d1, d2, z), dict(rp, d2=d2, c=c))
+                         % (c, e * scl, float(numpy.abs(rt - U).max()), n, wvl, d1, d2, z), dict(rp, d2=d2, c=c))
 
-    # ---- each single-FFT propagator IS the centred Fresnel / Fraunhofer sum (sign, scale, orientation)
-    sizes = [2, 4, 6, 8, 16] + ([] if quick else [10, 12, 32, 64])
+    # ---- each single-FFT propagator IS the centred Fresnel / Fraunhofer sum, angularSpectrum IS the direct angular-spectrum sum
+    # (kernel sign, scale, frequency grid, orientation); odd sizes included: every grid is centred on sample N//2
+    sizes = [2, 4, 5, 6, 7, 8, 16, 33] + ([] if quick else [3, 9, 10, 12, 32, 64, 65])
     for n in sizes:
         for rep in range(reps):
+            it += 1
             wvl, d1, z = c10.geometry(rng, n)
             kind = rng.choice(["gauss", "delta", "blob", "dyadic"])
-            U = c10.rand_field(nprng, n, kind)
-            rp = dict(N=n, wvl=wvl, d1=d1, z=z, data=kind, seed=chk.seed, U=c10._small(U))
+            cls = c10.FIELD_CLASSES[it % len(c10.FIELD_CLASSES)]
+            Uin, U, c64 = c10.present_field(c10.rand_field(nprng, n, kind), cls)
+            kinds = [k_ if k_ != "f32" else "f64" for k_ in c10.Scalars(rng, it, wvl, d1, 1.0, z).kinds]   # these identities are checked to 1e-9: double precision only
+            tol = c10.C64_TOL if c64 else sum_tol(n)
             chk.oracle_cases += 1
             chk.count("sum:N=%d" % n)
             chk.count("sum:z%s" % ("+" if z > 0 else "-"))
-            chk.case(("sum", n, wvl, d1, z, kind), sample={"identity": "direct Fresnel sums", "N": n, "wvl": wvl, "d1": d1, "z": z, "data": kind} if rep == 0 and n == 8 else None)
+            chk.count("sum:field=%s" % cls)
+            chk.case(("sum", n, wvl, d1, z, kind, cls, "/".join(kinds)),
+                     sample={"identity": "direct Fresnel / angular-spectrum sums", "N": n, "wvl": wvl, "d1": d1, "z": z, "data": kind} if rep == 0 and n in (7, 8) else None)
+            sc = c10.Scalars(rng, it, wvl, d1, 1.0, z, kinds)
+            (o_w, o_1, _, o_z), (wvl, d1, _, z) = sc.obj, sc.val
+            rp = dict(N=n, wvl=wvl, d1=d1, z=z, data=kind, field=cls, scalar_kinds=sc.label(), seed=chk.seed, U=c10._small(U))
             dd = wvl * z / (n * d1)
-            one = op.oneStepFresnel(U.copy(), wvl, d1, z)
+            one = quiet(op.oneStepFresnel, Uin, o_w, o_1, o_z)
             ref = fresnel_sum(U, wvl, z, d1, grid(n, dd))
-            if not relerr(one, ref) <= TOL:
-                chk.fail("fresnel-sum:oneStepFresnel", "oneStepFresnel ≠ (1/iλz) Σ U e^{+iπ|x2-x1|²/λz} d1² at x2=(a-N/2)d2: rel err %.3g; against the conjugate "
-                         "kernel %.3g; against the reflected grid %.3g (N=%d wvl=%g d1=%g z=%g)"
-                         % (relerr(one, ref), relerr(one, numpy.conj(fresnel_sum(numpy.conj(U), wvl, z, d1, grid(n, dd)))), relerr(one, reflect(ref)), n, wvl, d1, z), rp)
-            lens = op.lensAgainst(U.copy(), wvl, d1, z)
+            e = c10.obs(chk, "fresnel-sum:one[tol %g]" % tol, relerr(one, ref))
+            if not e <= tol:
+                chk.fail("fresnel-sum:oneStepFresnel" + (":odd" if n % 2 else ""),
+                         "oneStepFresnel ≠ (1/iλz) Σ U e^{+iπ|x2-x1|²/λz} d1² at x2=(a-N//2)d2: rel err %.3g; against the conjugate "
+                         "kernel %.3g; against the reflected grid %.3g; against grids centred on (N-1)/2+1/2 %.3g (N=%d wvl=%g d1=%g z=%g)"
+                         % (e, relerr(one, numpy.conj(fresnel_sum(numpy.conj(U), wvl, z, d1, grid(n, dd)))), relerr(one, reflect(ref)),
+                            relerr(one, fresnel_sum(U, wvl, z, d1, (numpy.arange(n) - n / 2.0) * dd)), n, wvl, d1, z), rp)
+            lens = quiet(op.lensAgainst, Uin, o_w, o_1, o_z)
             refl_ = fraunhofer_sum(U, wvl, z, d1, grid(n, dd))
-            if not relerr(lens, refl_) <= TOL:
-                chk.fail("fraunhofer-sum:lensAgainst", "lensAgainst ≠ e^{iπ|x2|²/λf}/(iλf) Σ U e^{-2πi x1·x2/λf} d1²: rel err %.3g (N=%d wvl=%g d1=%g f=%g)"
-                         % (relerr(lens, refl_), n, wvl, d1, z), rp)
-            for m in (rng.choice([0.5, 0.75, 1.5, 2.0]), 1.0, rng.uniform(0.4, 2.5)):
-                d2 = m * d1
-                chk.count("two:m%s1" % ("<" if m < 1 else ">" if m > 1 else "="))
-                two = op.twoStepFresnel(U.copy(), wvl, d1, d2, z)
+            e = c10.obs(chk, "fraunhofer-sum[tol %g]" % tol, relerr(lens, refl_))
+            if not e <= tol:
+                chk.fail("fraunhofer-sum:lensAgainst" + (":odd" if n % 2 else ""),
+                         "lensAgainst ≠ e^{iπ|x2|²/λf}/(iλf) Σ U e^{-2πi x1·x2/λf} d1²: rel err %.3g (transposed %.3g, reflected %.3g) (N=%d wvl=%g d1=%g f=%g)"
+                         % (e, relerr(lens.T, refl_), relerr(reflect(lens), refl_), n, wvl, d1, z), rp)
+            for m in (rng.choice([0.5, 0.75, 1.5, 2.0]), 1.0, rng.uniform(0.4, 2.5), c10.near_unit(rng)):
+                it += 1
+                scm = c10.Scalars(rng, it, wvl, d1, m, z, kinds)
+                (o_w, o_1, o_2, o_z), (wvl, d1, d2, z) = scm.obj, scm.val
+                chk.count("two:m%s1" % ("<" if d2 < d1 else ">" if d2 > d1 else "="))
+                for kk in scm.kinds:
+                    chk.count("sum:scalar=%s" % kk)
+                rpm = dict(rp, d2=d2, scalar_kinds=scm.label())
+                asp = quiet(op.angularSpectrum, Uin, o_w, o_1, o_2, o_z)
+                refa = spectrum_sum(U, wvl, d1, d2, z)
+                e = c10.obs(chk, "spectrum-sum[tol %g]" % tol, relerr(asp, refa))
+                if not e <= tol:
+                    chk.fail("spectrum-sum:angularSpectrum" + (":odd" if n % 2 else ""),
+                             "angularSpectrum ≠ Q3·IDFT[e^{-iπλz|f|²/m}·DFT[Q1·U/m]] with f=(j-N//2)/(N d1): rel err %.3g; against the conjugate transfer "
+                             "function %.3g (N=%d wvl=%g d1=%g d2=%g z=%g)" % (e, relerr(asp, spectrum_sum(U, wvl, d1, d2, -z) if d1 == d2 else refa), n, wvl, d1, d2, z), rpm)
+                two = quiet(op.twoStepFresnel, Uin, o_w, o_1, o_2, o_z)
                 ref2 = two_stage(U, wvl, d1, d2, z, n)
-                if not relerr(two, ref2) <= TOL:
-                    if relerr(two, reflect(ref2)) <= TOL:
-                        chk.fail("orientation:twoStepFresnel:point-reflected",
-                                 "twoStepFresnel returns the two-stage Fresnel field point-reflected about the centre sample (index j -> N-j): rel err %.3g on the grid "
-                                 "+(a-N/2)d2, %.3g on the reflected one (N=%d wvl=%g d1=%g d2=%g z=%g, %s input)"
-                                 % (relerr(two, ref2), relerr(two, reflect(ref2)), n, wvl, d1, d2, z, kind), dict(rp, d2=d2))
+                if not numpy.isfinite(two).all():
+                    chk.fail("scalar-kind:twoStepFresnel:unit-magnification-nan" if d1 == d2 else "nonfinite:twoStepFresnel",
+                             "twoStepFresnel returns NaN/inf samples for wvl=%r d1=%r d2=%r z=%r (N=%d)" % (o_w, o_1, o_2, o_z, n), rpm)
+                    continue
+                e = c10.obs(chk, "fresnel-sum:two[tol %g]" % tol, relerr(two, ref2))
+                if not e <= tol:
+                    if relerr(two, reflect(ref2)) <= tol or (n % 2 and relerr(numpy.roll(two, -1, axis=(0, 1)), ref2) <= tol):
+                        chk.fail("orientation:twoStepFresnel:point-reflected" + (":odd" if n % 2 else ""),
+                                 "twoStepFresnel returns the two-stage Fresnel field point-reflected / shifted about the centre sample: rel err %.3g on the grid "
+                                 "+(a-N//2)d2, %.3g on the reflected one (N=%d wvl=%g d1=%g d2=%g z=%g, %s input)"
+                                 % (e, relerr(two, reflect(ref2)), n, wvl, d1, d2, z, kind), rpm)
                     else:
-                        chk.fail("fresnel-sum:twoStepFresnel", "twoStepFresnel ≠ the two chained Fresnel sums: rel err %.3g (N=%d wvl=%g d1=%g d2=%g z=%g)"
-                                 % (relerr(two, ref2), n, wvl, d1, d2, z), dict(rp, d2=d2))
+                        chk.fail("fresnel-sum:twoStepFresnel" + (":odd" if n % 2 else ""), "twoStepFresnel ≠ the two chained Fresnel sums: rel err %.3g (N=%d wvl=%g d1=%g d2=%g z=%g)"
+                                 % (e, n, wvl, d1, d2, z), rpm)
 
     # ---- cross-propagator agreement on matching grids, asymmetric off-centre resolved beam (numeric: discretisation bound)
-    for n in ([64] if quick else [64, 128]):
+    for n in ([64, 65] if quick else [64, 65, 128, 129]):
         for rep in range(2 if quick else 6):
             wvl, d1 = 1e-6, 1e-3
             x = grid(n, d1)
@@ -154,38 +255,42 @@ def oracle(chk, quick):
             U = numpy.exp(-((X - cx) ** 2 / (2 * (4e-3) ** 2) + (Y - cy) ** 2 / (2 * (3e-3) ** 2))).astype(complex)
             for m in (0.75, 1.5, rng.uniform(0.6, 0.9), rng.uniform(1.2, 1.8)):
                 for sgn in (1, -1):
+                    it += 1
                     z = sgn * 20.0
+                    kinds = [k_ if k_ != "f32" else "0d" for k_ in c10.Scalars(rng, it, wvl, d1, m, z).kinds]
+                    sc = c10.Scalars(rng, it, wvl, d1, m, z, kinds)
                     chk.oracle_cases += 1
-                    chk.case(("cross", n, m, z, cx, cy))
-                    chk.count("cross:as-two")
-                    a_ = op.angularSpectrum(U.copy(), wvl, d1, m * d1, z)
-                    t_ = op.twoStepFresnel(U.copy(), wvl, d1, m * d1, z)
-                    e = relerr(t_, a_)
-                    if not e <= 1e-3:
+                    chk.case(("cross", n, m, z, cx, cy, sc.label()))
+                    chk.count("cross:as-two:N=%d" % n)
+                    a_ = op.angularSpectrum(U.copy(), *sc.obj) * numpy.exp(-1j * (math.pi / wvl) * (1 - m) / z * 1e-10)
+                    t_ = op.twoStepFresnel(U.copy(), *sc.obj)
+                    e = c10.obs(chk, "cross:as-two[tol %g]" % CROSS_TWO_TOL, relerr(t_, a_))
+                    if not e <= CROSS_TWO_TOL:
                         ef = relerr(reflect(t_), a_)
-                        key = "orientation:twoStepFresnel:point-reflected" if ef <= 1e-3 else "cross:angularSpectrum-vs-twoStepFresnel"
-                        chk.fail(key, "twoStepFresnel and angularSpectrum disagree on the same grid: rel err %.3g (%.3g after point-reflecting one of them); "
+                        key = "orientation:twoStepFresnel:point-reflected" if ef <= CROSS_TWO_TOL else "cross:angularSpectrum-vs-twoStepFresnel"
+                        chk.fail(key + (":odd" if n % 2 else ""), "twoStepFresnel and angularSpectrum disagree on the same grid: rel err %.3g (%.3g after point-reflecting one of them); "
                                  "N=%d m=%g z=%g, Gaussian centred at (%.2g, %.2g) m" % (e, ef, n, m, z, cx, cy), dict(N=n, wvl=wvl, d1=d1, d2=m * d1, z=z, cx=cx, cy=cy))
             # angular spectrum onto the one-step grid d2 = λz/(N d1)
             for m in (1.0, 1.5):
                 z = m * n * d1 * d1 / wvl
                 chk.oracle_cases += 1
                 chk.case(("cross1", n, m, cx, cy))
-                chk.count("cross:as-one")
-                a_ = op.angularSpectrum(U.copy(), wvl, d1, m * d1, z)
+                chk.count("cross:as-one:N=%d" % n)
+                a_ = op.angularSpectrum(U.copy(), wvl, d1, m * d1, z) * numpy.exp(-1j * (math.pi / wvl) * (1 - m) / z * 1e-10)
                 o_ = op.oneStepFresnel(U.copy(), wvl, d1, z)
-                e = relerr(o_, a_)
-                if not e <= 1e-3:
-                    chk.fail("cross:angularSpectrum-vs-oneStepFresnel", "oneStepFresnel and angularSpectrum disagree on the same grid: rel err %.3g (reflected %.3g, "
+                e = c10.obs(chk, "cross:as-one[tol %g]" % CROSS_ONE_TOL, relerr(o_, a_))
+                if not e <= CROSS_ONE_TOL:
+                    chk.fail("cross:angularSpectrum-vs-oneStepFresnel" + (":odd" if n % 2 else ""), "oneStepFresnel and angularSpectrum disagree on the same grid: rel err %.3g (reflected %.3g, "
                              "conjugated %.3g); N=%d m=%g z=%g" % (e, relerr(reflect(o_), a_), relerr(numpy.conj(o_), a_), n, m, z), dict(N=n, wvl=wvl, d1=d1, z=z, cx=cx, cy=cy))
 
-    # ---- analytic Gaussian beam: width, curvature, Gouy phase (numeric: aliasing bound)
-    for n in ([128] if quick else [128, 256]):
+    # ---- analytic Gaussian beam: width, curvature, Gouy phase (numeric: aliasing bound); the waist scales with the grid so that the beam
+    # stays resolved (w0 >= 3.4 samples) and contained (edge at >= 5.5 w(z))
+    for n in ([65, 128, 129] if quick else [65, 96, 128, 129, 255, 256]):
         for rep in range(3 if quick else 10):
             wvl, d1 = 1e-6, 1e-3 * rng.choice([1.0, 0.5])
-            w0 = rng.uniform(6, 9) * d1
+            w0 = rng.uniform(6.8, 8.6) * d1 * min(n, 128) / 128.0
             zR = math.pi * w0 * w0 / wvl
-            z = rng.choice([-1, 1]) * rng.uniform(0.3, 1.0) * zR
+            z = rng.choice([-1, 1]) * rng.uniform(0.3, 0.7) * zR
             x = grid(n, d1)
             X, Y = numpy.meshgrid(x, x)
             r2 = X ** 2 + Y ** 2
@@ -195,16 +300,15 @@ def oracle(chk, quick):
             ana = (w0 / wz) * numpy.exp(-r2 / wz ** 2) * numpy.exp(1j * (math.pi * r2 / (wvl * Rz) - math.atan(z / zR)))
             chk.oracle_cases += 1
             chk.case(("gauss", n, w0, z))
-            chk.count("gaussian-beam")
-            for name, out in (("angularSpectrum", op.angularSpectrum(U.copy(), wvl, d1, d1, z)),
-                              ("twoStepFresnel", None)):
-                if out is None:
-                    continue
-                e = relerr(out, ana)
-                if not e <= 1e-6:
-                    chk.fail("gaussian-beam:" + name, "%s of a Gaussian beam (w0=%.3g, z=%.3g=%.2f zR) differs from the analytic beam by %.3g of the peak "
-                             "(conjugate solution: %.3g)" % (name, w0, z, z / zR, e, relerr(out, numpy.conj(ana))), dict(N=n, wvl=wvl, d1=d1, w0=w0, z=z))
+            chk.count("gaussian-beam:N=%d" % n)
+            out = op.angularSpectrum(U.copy(), wvl, d1, d1, z)
+            e = c10.obs(chk, "gaussian[tol %g]" % GAUSS_TOL, relerr(out, ana))
+            if not e <= GAUSS_TOL:
+                chk.fail("gaussian-beam:angularSpectrum" + (":odd" if n % 2 else ""), "angularSpectrum of a Gaussian beam (w0=%.3g, z=%.3g=%.2f zR, N=%d) differs from the analytic beam by %.3g "
+                         "of the peak (conjugate solution: %.3g)" % (w0, z, z / zR, n, e, relerr(out, numpy.conj(ana))), dict(N=n, wvl=wvl, d1=d1, w0=w0, z=z))
             # magnified: the beam on the output grid m*d1
+            if n < 96:
+                continue
             m = rng.choice([0.75, 1.5])
             X2, Y2 = numpy.meshgrid(grid(n, m * d1), grid(n, m * d1))
             r22 = X2 ** 2 + Y2 ** 2
@@ -213,37 +317,49 @@ def oracle(chk, quick):
                               ("twoStepFresnel", op.twoStepFresnel(U.copy(), wvl, d1, m * d1, z))):
                 # the 1e-10 in r1sq contributes the constant phase k/2 (1-m)/z 1e-10 to angularSpectrum
                 ph = numpy.exp(1j * (math.pi / wvl) * (1 - m) / z * 1e-10) if name == "angularSpectrum" else 1.0
-                e = relerr(out, ana2 * ph)
-                if not e <= 1e-5:
-                    chk.fail("gaussian-beam:" + name, "%s (m=%g) of a Gaussian beam (w0=%.3g, z=%.2f zR) differs from the analytic beam by %.3g of the peak "
-                             "(conjugate solution: %.3g)" % (name, m, w0, z / zR, e, relerr(out, numpy.conj(ana2))), dict(N=n, wvl=wvl, d1=d1, d2=m * d1, w0=w0, z=z))
+                e = c10.obs(chk, "gaussian-magnified[tol %g]" % GAUSS_MAG_TOL, relerr(out, ana2 * ph))
+                if not e <= GAUSS_MAG_TOL:
+                    chk.fail("gaussian-beam:" + name + (":odd" if n % 2 else ""), "%s (m=%g) of a Gaussian beam (w0=%.3g, z=%.2f zR, N=%d) differs from the analytic beam by %.3g of the peak "
+                             "(conjugate solution: %.3g)" % (name, m, w0, z / zR, n, e, relerr(out, numpy.conj(ana2))), dict(N=n, wvl=wvl, d1=d1, d2=m * d1, w0=w0, z=z))
 
-    # ---- Airy pattern of a circular aperture in the focal plane of lensAgainst (numeric: pixelated-edge bound)
+    # ---- Airy pattern in the focal plane of lensAgainst (numeric: aliasing bound).  The aperture is an OFF-CENTRE ELLIPSE (semi-axes Rx != Ry,
+    # centre (x0, y0)): the pattern is the Airy amplitude in the stretched radius times the linear phase e^{-2πi(X x0 + Y y0)/λf}, so a
+    # transposed, reflected or conjugated output differs at O(1); pixels are area-weighted, i.e. the aperture is convolved with the
+    # pixel box before sampling, which multiplies the pattern by sinc(X d1/λf) sinc(Y d1/λf) exactly, and sampling periodises it (image sum)
     from scipy.special import j1
-    for n in ([128] if quick else [128, 256]):
+    for n in ([128, 129] if quick else [128, 129, 256]):
         for rep in range(2 if quick else 6):
             wvl, d1, f = 1e-6, 1e-3, rng.choice([-1, 1]) * rng.uniform(5, 20)
-            R = rng.uniform(0.12, 0.2) * n * d1
-            # area-weighted (8x8 supersampled) aperture so that the edge error is O(1/(8R_px))
-            ss = 8
-            xs = (numpy.arange(n * ss) + 0.5) * (d1 / ss) - (n / 2.0) * d1 - d1 / 2
+            Rx = rng.uniform(0.12, 0.2) * n * d1
+            Ry = Rx * rng.choice([rng.uniform(0.55, 0.8), rng.uniform(1.25, 1.6)])
+            x0, y0 = rng.uniform(1.5, 6) * d1 * rng.choice([-1, 1]), rng.uniform(1.5, 6) * d1 * rng.choice([-1, 1])
+            ss = 16
+            xs = ((numpy.arange(n * ss) + 0.5) / ss - 0.5 - n // 2) * d1         # sub-pixel centres; pixel j covers [(j-n//2-1/2) d1, (j-n//2+1/2) d1]
             XS, YS = numpy.meshgrid(xs, xs)
-            ap = ((XS ** 2 + YS ** 2) <= R * R).reshape(n, ss, n, ss).mean(axis=(1, 3)).astype(complex)
+            ap = ((((XS - x0) / Rx) ** 2 + ((YS - y0) / Ry) ** 2) <= 1.0).reshape(n, ss, n, ss).mean(axis=(1, 3)).astype(complex)
             out = op.lensAgainst(ap, wvl, d1, f)
             x2 = grid(n, wvl * f / (n * d1))
             X2, Y2 = numpy.meshgrid(x2, x2)
-            rho = numpy.sqrt(X2 ** 2 + Y2 ** 2)
-            arg = 2 * math.pi * R * rho / (wvl * abs(f))
-            with numpy.errstate(invalid="ignore", divide="ignore"):
-                airy = numpy.where(arg == 0, 1.0, 2 * j1(arg) / arg)
-            ana = numpy.exp(1j * math.pi * rho ** 2 / (wvl * f)) / (1j * wvl * f) * math.pi * R * R * airy
+
+            def pattern(X, Y):
+                arg = 2 * math.pi * numpy.sqrt((Rx * X) ** 2 + (Ry * Y) ** 2) / (wvl * abs(f))
+                with numpy.errstate(invalid="ignore", divide="ignore"):
+                    airy = numpy.where(arg == 0, 1.0, 2 * j1(arg) / arg)
+                return (math.pi * Rx * Ry * airy * numpy.sinc(X * d1 / (wvl * f)) * numpy.sinc(Y * d1 / (wvl * f))
+                        * numpy.exp(-2j * math.pi * (X * x0 + Y * y0) / (wvl * f)))
+
+            per = wvl * f / d1                                                      # sampling at d1 periodises the transform with period λf/d1
+            ana = numpy.exp(1j * math.pi * (X2 ** 2 + Y2 ** 2) / (wvl * f)) / (1j * wvl * f) * sum(
+                pattern(X2 + p_ * per, Y2 + q_ * per) for p_ in range(-2, 3) for q_ in range(-2, 3))
             chk.oracle_cases += 1
-            chk.case(("airy", n, R, f))
-            chk.count("airy")
-            e = relerr(out, ana)
-            if not e <= 2e-2:
-                chk.fail("airy:lensAgainst", "focal-plane field of a circular aperture (R=%.3g m, f=%.3g m, N=%d) differs from the Airy amplitude by %.3g of the peak"
-                         % (R, f, n, e), dict(N=n, wvl=wvl, d1=d1, f=f, R=R))
+            chk.case(("airy", n, Rx, Ry, x0, y0, f))
+            chk.count("airy:N=%d" % n)
+            e = c10.obs(chk, "airy[tol %g]" % AIRY_TOL, relerr(out, ana))
+            if not e <= AIRY_TOL:
+                chk.fail("airy:lensAgainst" + (":odd" if n % 2 else ""), "focal-plane field of an elliptical aperture (Rx=%.3g Ry=%.3g m centred at (%.2g, %.2g) m, f=%.3g m, N=%d) differs from "
+                         "the Airy amplitude by %.3g of the peak (transposed output: %.3g, point-reflected: %.3g, conjugated: %.3g)"
+                         % (Rx, Ry, x0, y0, f, n, e, relerr(out.T, ana), relerr(reflect(out), ana), relerr(numpy.conj(out), ana)),
+                         dict(N=n, wvl=wvl, d1=d1, f=f, Rx=Rx, Ry=Ry, x0=x0, y0=y0))
 
 
 def pinned_tie(chk, quick):
@@ -253,7 +369,7 @@ def pinned_tie(chk, quick):
     nprng = numpy.random.default_rng(chk.rng.getrandbits(32))
     lines, expect, desc = [], [], []
     for it in range(6 if quick else 30):
-        n = chk.rng.choice([2, 4, 6, 8])
+        n = chk.rng.choice([2, 3, 4, 5, 6, 7, 8])
         U = c10.rand_field(nprng, n, chk.rng.choice(["gauss", "delta", "blob"]))
         wvl, d1, z = c10.geometry(chk.rng, n)
         m = c10.MAGS[it % len(c10.MAGS)]
@@ -275,21 +391,29 @@ def pinned_tie(chk, quick):
 
 def run(chk):
     quick = chk.tier == "quick"
-    chk.rule = ("correspondence: as C10 (same model, same driver ops); oracle on the real code: group laws of angularSpectrum (z=0 exact; any split z1+z2 incl. "
-                "zero/opposite signs, -z, magnified return trip with the explicit constant phase; err <= 1e-9*max|U|), oneStepFresnel / lensAgainst / "
-                "twoStepFresnel against the direct centred Fresnel sums on the grid +(a-N/2)d2 (rel err <= 1e-9, N<=16, thorough <=64), cross-propagator "
-                "agreement for an asymmetric off-centre Gaussian (rel 1e-3), analytic Gaussian beam incl. curvature and Gouy phase (rel 1e-6; magnified 1e-5), "
-                "Airy amplitude (2% of peak); distinct = distinct (family, N, geometry, data kind)")
+    chk.rule = ("correspondence: as C10 (same model, same driver ops, same scalar typings and field classes) plus odd N = 3..9 (thorough ..15); oracle on the "
+                "real code: group laws of angularSpectrum on even and odd N (z=0 exact for every typing of zero; any split z1+z2 incl. zero/opposite signs; whole "
+                "programs of 2..5 steps with the same total; -z; magnified return trip with the explicit constant phase; err <= 1e-9*max|U|, 5e-2 with a float32 "
+                "scalar, 1e-5 for a complex64 field); angularSpectrum against the direct angular-spectrum sum and oneStepFresnel / lensAgainst / twoStepFresnel "
+                "against the direct centred Fresnel sums on the grid +(a-N//2)d2, N in {2,4,5,6,7,8,16,33} (thorough ..65), m in menu/1/free/1±2^-k (rel err <= 1e-9, "
+                "1e-8 for N>=32); angularSpectrum = twoStepFresnel for an asymmetric off-centre Gaussian on N=64,65 (thorough 128,129) to 1e-9 after the known "
+                "constant phase; angularSpectrum vs oneStepFresnel 2e-5; analytic Gaussian beam incl. curvature and Gouy phase on N=65,128,129 (rel 1e-9; "
+                "magnified 1e-7, N>=96); Airy amplitude of an off-centre elliptical aperture on N=128,129 (5e-3 of the peak); distinct = distinct (family, N, "
+                "geometry, data kind, field class, scalar kinds)")
     chk.assumptions = ["numpy.fft kernels = naive DFT sums (contract checked numerically each run)",
                        "binary64 rounding is not modelled: the theorems are about exact complex arithmetic",
-                       "agreement of the discrete Fresnel sums with the continuous Fresnel integral (Gaussian beam: width, curvature, Gouy phase; Airy pattern; "
-                       "angular-spectrum vs Fresnel sampling on matching grids) is an approximation statement: numeric only, bounds 1e-6 / 1e-5 / 2e-2 / 1e-3 of the peak "
+                       "single-precision inputs (numpy.float32 scalars, complex64 fields) are only compared to single-precision accuracy",
+                       "all exact theorems hold for every N >= 1, odd included (the original Fresnel-sum / orientation statements are for even N with centre N/2; "
+                       "the ..._anyN versions cover every N with centre N//2); the point-reflection statement about the pinned code stays even-N",
+                       "agreement of the discrete sums with the continuous Fresnel integral (Gaussian beam: width, curvature, Gouy phase; Airy pattern; "
+                       "angular-spectrum vs one-step Fresnel sampling) is an approximation statement: numeric only, bounds 1e-9 / 1e-7 / 5e-3 / 2e-5 of the peak "
                        "on resolved inputs"]
     chk.build_and_audit("AoVerif.Props.C11", "AoVerif.Props.C11", REQUIRED)
     c10.kernel_contract(chk)
     try:
-        c10.correspondence(chk, quick, 28 if quick else 160)
+        c10.correspondence(chk, quick, 30 if quick else 180, odd=True)
         pinned_tie(chk, quick)
     except common.LeanError as ex:
         chk.broke("correspondence", "driver failed", str(ex))
     oracle(chk, quick)
+    c10.obs_note(chk)
